@@ -527,11 +527,14 @@ SetArgs == IF Level = 0 THEN { << <<1, 1>> >>, << <<2, 2>> >>, << <<1, 0>> >>, <
            ELSE IF Level = 1 THEN { << <<1, 1>> >>, << <<2, 2>> >>, << <<1, 0>> >>, << <<0, 0>> >>, << <<2, 0>> >>, << <<3, 0>> >> }
            ELSE { << <<1, 1>> >>, << <<2, 2>> >>, << <<1, 0>> >>, << <<0, 0>> >>, << <<2, 0>> >>,
                   << <<3, 1>> >>, << <<1, 1>>, <<3, 3>> >>, << <<3, 0>> >> }
-StoreArgs == IF Level = 0 THEN { <<"add", <<":Deleted">>>>, <<"add", <<":SEEN">>>>, <<"del", <<":seen">>>> }
+\* (a flag list is a list: it may name a flag twice, in different spellings - it still stands for a set)
+StoreArgs == IF Level = 0 THEN { <<"add", <<":Deleted">>>>, <<"add", <<":SEEN">>>>, <<"del", <<":seen">>>>,
+                                 <<"set", <<":Seen", ":SEEN">>>> }
              ELSE IF Level = 1 THEN { <<"add", <<":Deleted">>>>, <<"add", <<":SEEN">>>>, <<"del", <<":seen">>>>,
-                                      <<"del", <<":DELETED">>>>, <<"set", <<>>>> }
+                                      <<"del", <<":DELETED">>>>, <<"set", <<>>>>, <<"set", <<":Seen", ":SEEN">>>> }
              ELSE { <<"add", <<":Deleted">>>>, <<"add", <<":SEEN", "KW1">>>>, <<"del", <<":seen">>>>,
-                    <<"del", <<":DELETED", "kw1">>>>, <<"set", <<":Flagged">>>>, <<"set", <<>>>> }
+                    <<"del", <<":DELETED", "kw1">>>>, <<"set", <<":Flagged">>>>, <<"set", <<>>>>,
+                    <<"set", <<":Seen", ":SEEN">>>>, <<"add", <<"kw1", "KW1", ":deleted">>>> }
 MsgCmds(cs) ==
      {[C0 EXCEPT !.op = "STORE", !.c = c, !.uid = u, !.set = s, !.sop = a[1], !.fl = a[2]] :
         c \in cs, u \in BOOLEAN, s \in SetArgs, a \in StoreArgs}
